@@ -82,19 +82,17 @@ func repeat(fm *Frame, n int, v any) error {
 }
 
 func readBytes(fm *Frame, max int) (string, error) {
-	in := fm.InputFile()
-	buf := make([]byte, max)
-	read := 0
-	for read < max {
-		n, err := in.Read(buf[read:])
-		read += n
-		if err == io.EOF {
-			break
-		} else if err != nil {
-			return "", err
-		}
+	if max < 0 {
+		return "", errs.BadValue{What: "number of bytes to read",
+			Valid: "non-negative integer", Actual: strconv.Itoa(max)}
 	}
-	return string(buf[:read]), nil
+	// Grow the buffer as bytes arrive instead of allocating max bytes upfront.
+	var buf strings.Builder
+	_, err := io.CopyN(&buf, fm.InputFile(), int64(max))
+	if err != nil && err != io.EOF {
+		return "", err
+	}
+	return buf.String(), nil
 }
 
 func readUpto(fm *Frame, terminator string) (string, error) {
